@@ -647,6 +647,12 @@ class Array(metaclass=MetaArray):
                 )
             info.size = size  # the size of an instance never changes
             cls._to_buffer(self._buffer, self._offset, value, info)
+            if not cls._is_static_type:
+                # the items may divide the space differently now: this
+                # handle must not keep the item offsets it cached before
+                self._offsets = cls._from_buffer(
+                    self._buffer, self._offset
+                )._offsets
         else:
             if is_integer(value):
                 raise ValueError(f"Cannot specify new length {ll} for {self}")
